@@ -46,7 +46,8 @@ Ltac res_inv :=
   repeat match goal with
   | H : bind _ _ = Ok _ |- _ =>
       let a := fresh "a" in let Ha := fresh "Hr" in
-      apply bind_ok in H; destruct H as [a [Ha H]]
+      apply bind_ok in H; destruct H as [a [Ha H]]; cbn beta in H
+  | H : (match ?a with pair _ _ => _ end) = Ok _ |- _ => is_var a; destruct a
   | H : Ok _ = Ok _ |- _ => inversion H; subst; clear H
   | H : Raise _ = Ok _ |- _ => discriminate H
   end.
